@@ -158,7 +158,7 @@ def _run_cases(job, specs, descs, mods, res, bump, mode, spans, bytes_mode, tag)
     outcomes = set()
     abandoned = False
     first_sample = None
-    sigs_seen = set()
+    sigs_seen = {}
     for text in inputs:
         if abandoned:
             break
@@ -221,8 +221,8 @@ def _run_cases(job, specs, descs, mods, res, bump, mode, spans, bytes_mode, tag)
                         key = case_key(_j(case))
                         sig = ('%s %s' % (tag, why)).strip()
                         res['viol_keys'].append((key, sig))
-                        if sig not in sigs_seen and len(sigs_seen) < 6:
-                            sigs_seen.add(sig)
+                        if sigs_seen.get(sig, 0) < 2 and len(sigs_seen) < 6:
+                            sigs_seen[sig] = sigs_seen.get(sig, 0) + 1
                             res['viol'].append({'sig': sig, 'key': key, 'case': _j(case),
                                                 'expected': exp, 'got': got,
                                                 'snippet': snippet(descs, ent, text, pos, full)})
